@@ -468,6 +468,10 @@ class CompiledSimulation(object):
 
     def _declare_mems(self, write, mems):
         for mem in mems:
+            if mem.addrwidth > 64:
+                # the C hash map is keyed by one 64-bit limb; wider addresses would alias
+                raise PyrtlError('CompiledSimulation does not support memories with more than '
+                                 '64 address bits ("%s" has %d)' % (mem.name, mem.addrwidth))
             self.varname[mem] = vn = self._clean_name('m', mem)
             write('EXPORT')
             write('hashmap_t *{name};'.format(name=vn))
